@@ -212,9 +212,26 @@ func init() {
 			if len(lits) < 1 {
 				r.Bad(qk, "entry literal", fmt.Sprintf("expected an Undelegation value built from the parameters, found %d", len(lits)), nil, e.Pos(q.Pos()))
 			}
-			for i, a := range lits {
+			nLit := 0
+			for _, a := range lits {
 				f := complitFields(qa, a)
-				c := fmt.Sprintf("entry literal #%d", i+1)
+				if len(f) == 0 {
+					// a local that only receives a whole copy of another literal of the function (`entry := newEntry(..)`
+					// once the constructor is inlined): the literal it copies is checked
+					if src := wholeCopySource(a); src != nil && src != a {
+						isLit := false
+						for _, b := range lits {
+							if b == src {
+								isLit = true
+							}
+						}
+						if isLit {
+							continue
+						}
+					}
+				}
+				nLit++
+				c := fmt.Sprintf("entry literal #%d", nLit)
 				r.Check(f["Balance"] != nil && f["Balance"].Op == "param" && f["Balance"].Name == "coin", qk, c+" Balance", "Balance is the coin parameter", "the queued entry's balance is not the coin parameter: "+f["Balance"].String(), r.P(a))
 				r.Check(f["DelegatorAddress"] != nil && f["DelegatorAddress"].IsCall("sdk.AccAddress.String") && f["DelegatorAddress"].Args[0].Op == "param", qk, c+" DelegatorAddress", "delegator parameter", "the queued entry's delegator is not the delegator parameter: "+f["DelegatorAddress"].String(), r.P(a))
 				r.Check(f["ValidatorAddress"] != nil && f["ValidatorAddress"].IsCall("sdk.ValAddress.String") && f["ValidatorAddress"].Args[0].Op == "param", qk, c+" ValidatorAddress", "validator parameter", "the queued entry's validator is not the validator parameter: "+f["ValidatorAddress"].String(), r.P(a))
